@@ -410,5 +410,19 @@ PROPS["C14"]["explanation"] += " (CLOSEVER) the version element is brought up to
 PROPS["C14"]["rules"] = PROPS["C14"]["rules"] + [rules_access.rule_readonly_shortcut_is_read]
 PROPS["C14"]["explanation"] += " (ROSHORTCUT) the fill-value shortcut of the SD data path for read-only files is confined to reads."
 
+PROPS["C07"]["rules"] = PROPS["C07"]["rules"] + [rules_idioms.rule_slot_filled_alike]
+PROPS["C07"]["explanation"] += " (SLOTFILL) a field-definition entry is filled completely (name, type, size, order) on the redefinition path as on the new-entry path."
+
+PROPS["C07"]["rules"] = PROPS["C07"]["rules"] + [rules_idioms.rule_snapshot_not_consulted]
+PROPS["C07"]["explanation"] += " (SNAPSHOT) no decision reads the record count snapshot kept in the per-file instance node; the live count is the one in the Vdata record."
+
+PROPS["C07"]["rules"] = PROPS["C07"]["rules"] + [rules_coders.rule_trailing_pointer]
+PROPS["C04"]["rules"] = PROPS["C04"]["rules"] + [rules_coders.rule_trailing_pointer]
+PROPS["C04"]["explanation"] += " (TRAIL) the linked-block write loop re-establishes its trailing table pointer whenever it moves to the next block table, so new block references are recorded in the table they belong to (appendable Vdatas and unlimited SDS growth use this path)."
+PROPS["C07"]["explanation"] += " (TRAIL) see C04: appends to a Vdata stored as linked blocks record new blocks in the right block table."
+
+PROPS["C13"]["rules"] = PROPS["C13"]["rules"] + [rules_handles.rule_cross_object_compare]
+PROPS["C13"]["explanation"] += " (SELFCMP) a same-file guard in the V interface compares fields of two different objects on every path (the local it tests was not loaded from the field it is compared with)."
+
 NOT_APPLICABLE = {}
 
